@@ -157,3 +157,23 @@ def run(F, rep):
     if not labs and len(txt) == 1:
         labs = {t for t in ('ALGEBRAIC', 'ODE', 'NLA', 'DAE', 'INVALID', 'UNDERCONSTRAINED', 'OVERCONSTRAINED', 'UNSUITABLY_CONSTRAINED', 'UNKNOWN') if t in txt[0]}
     rep.check(labs == {'ALGEBRAIC', 'ODE', 'NLA', 'DAE'}, 'C17.G1', 'AnalyserModel::isValid', iv.where(), 'isValid() is true for %s' % sorted(labs), 'valid = algebraic | ode | nla | dae')
+
+    # ------------------------------------------------------------------ O: one definition of "has ODEs" / "has NLA systems"
+    rep.rule('C17.O1', 'in generator.cpp the kind of the model is consulted only through modelHasOdes() (ODE or DAE) and modelHasNlas() (NLA or DAE): no other function compares the model type with one of ODE/DAE/NLA/ALGEBRAIC, '
+                       'so declarations, sizes and definitions cannot disagree about, say, a DAE')
+    want = {'modelHasOdes': {'ODE', 'DAE'}, 'modelHasNlas': {'NLA', 'DAE'}}
+    n_o = 0
+    for g in F.funcs.values():
+        if not g.file.endswith('/generator.cpp'):
+            continue
+        refs = [x for x in g.walk() if x.get('k') == 'Ref' and x.get('dk') == 'enumc' and (x.get('q') or '').startswith('libcellml::AnalyserModel::Type::') and x['n'] in ('ODE', 'DAE', 'NLA', 'ALGEBRAIC')]
+        if not refs:
+            continue
+        n_o += 1
+        if g.name in want:
+            got = {x['n'] for x in refs}
+            rep.check(got == want[g.name], 'C17.O1', 'definition|' + g.name, g.where(), '%s() is true for %s, expected %s' % (g.name, sorted(got), sorted(want[g.name])), 'true for %s' % sorted(got))
+        else:
+            rep.fail('C17.O1', 'direct|%s' % g.short.split('::')[-1], g.where(refs[0]), '%s compares the model type with %s itself instead of using modelHasOdes()/modelHasNlas(): the other kinds that have ODEs/NLA systems are treated differently here than in the sibling emitters' % (g.short, sorted({x['n'] for x in refs})))
+    if n_o < 2:
+        raise AnalysisBroken('C17.O1: modelHasOdes/modelHasNlas vanished')
